@@ -65,16 +65,40 @@ def main(path):
     except (ValueError, TypeError, ZeroDivisionError, UnboundLocalError, KeyError, IndexError, AttributeError) as e:
         raised = type(e).__name__
     per_path = hasattr(case, "path_obligations")
-    if per_path:
-        ref = case.ref_concrete(I, FloatOps, mk)
-    else:
-        ref = case.ref(I, FloatOps, mk)
+    try:
+        if per_path:
+            ref = case.ref_concrete(I, FloatOps, mk)
+        else:
+            ref = case.ref(I, FloatOps, mk)
+    except (ValueError, TypeError, IndexError, KeyError, ZeroDivisionError, AttributeError) as e:
+        from sx.harness import _raised_in_library
+
+        if not _raised_in_library(e):
+            raise
+        # the oracle of a code-vs-code obligation is a library call equivalent to the one under test
+        if raised is None:
+            return "reproduced", f"the equivalent library call on the oracle side raised {type(e).__name__}: {e} while the call under test returned"
+        return "not-reproduced", f"both equivalent calls raise ({raised} / {type(e).__name__})"
     label, idx, part = p["label"], tuple(p["index"]), p["part"]
-    if label == "__raises__" or raised is not None or "__raises__" in ref:
+    if raised is not None or "__raises__" in ref:
         want = ref.get("__raises__")
         bad = (raised != want) and not (want == "*" and raised is not None)
         detail = f"code raised {raised}, oracle expects {want}"
         return ("reproduced" if bad else "not-reproduced"), detail
+    if label == "__raises__":
+        # the symbolic run ended in an exception (e.g. an exact division by zero where IEEE arithmetic gives
+        # inf / nan) but the real code returns: compare everything it returns with the oracle
+        fo, fr = dict(flatten(out)), dict(flatten(ref))
+        for key in fr:
+            if key not in fo:
+                return "reproduced", f"label {key} missing from the code's output"
+            from sx.harness import Claim
+            if isinstance(fr[key], Claim):
+                continue
+            for (pn, x), (_, y) in zip(fparts(fo[key]), fparts(fr[key])):
+                if not (np.isfinite(x) and np.isfinite(y)) or case.replay_compare(key[0], key[1], x, y):
+                    return "reproduced", f"code={x!r} oracle={y!r} at {key[0]}{list(key[1])}"
+        return "not-reproduced", "the real code returns and agrees with the oracle on every element"
     fo, fr = dict(flatten(out)), dict(flatten(ref))
     if per_path:
         # path-dependent oracle: any disagreement between the real code and the concrete oracle reproduces
